@@ -383,7 +383,7 @@ static void p0_run(uint64_t idx, vh_rng_t * rng) {
     prefix[1] = (int) (t % 7); t /= 7; prefix[0] = (int) (t % 7); t /= 7;
     N = 1 + (int) (t % N_MAX); t /= N_MAX; H = H_MIN + (size_t) t;
     vh_case_desc("exhaustive histories of length %d on a %zu-byte heap, capacity %d, prefix letters %d,%d of {push, push+text of 1, H/2, H-1, H characters (duplicates removed), pop, clear}", p0_len(vh_args.thorough), H, N, prefix[0], prefix[1]);
-    vh_watchdog(60);
+    vh_watchdog(vh_args.thorough ? 60 : 10);
     enum_block(H, N, 0, p0_len(vh_args.thorough), prefix, 2, idx);
     flush_counts();
 }
@@ -397,7 +397,7 @@ static void p1_run(uint64_t idx, vh_rng_t * rng) {
     prefix[0] = (int) (t % 10); t /= 10;
     N = 1 + (int) (t % N_MAX); t /= N_MAX; H = H_MIN + (size_t) t;
     vh_case_desc("exhaustive histories of length %d on a %zu-byte heap, capacity %d, first letter %d of the rich alphabet {push, push+text of 1, 2, H/2, H-2, H-1, H characters, errorpop, SYST:ERR?, clear}", p1_len(vh_args.thorough), H, N, prefix[0]);
-    vh_watchdog(60);
+    vh_watchdog(vh_args.thorough ? 60 : 10);
     enum_block(H, N, 1, p1_len(vh_args.thorough), prefix, 1, idx);
     flush_counts();
 }
@@ -444,7 +444,7 @@ static void p2_run(uint64_t idx, vh_rng_t * rng) {
         hsh = vh_hash_u64(((uint64_t) o->kind << 32) ^ ((uint64_t) o->mode << 16) ^ o->len, hsh);
     }
     vh_case_desc("random history: %d operations, heap %zu bytes, capacity %d, %d%% pushes, %d%% with text, length style %d", nops, H, N, pw_push, p_text, style);
-    vh_watchdog(60);
+    vh_watchdog(vh_args.thorough ? 60 : 10);
     rig_open(&rig, N, H);
     run_history(&rig, ops, nops);
     rig_close(&rig);
